@@ -625,6 +625,157 @@ def d_ensemble(rng):
     return {"op": "sm-ensemble", "params": p, "raw": raw, "npseed": rng.randrange(2 ** 31)}
 
 
+def d_pair_nonprefix(rng):
+    """HARDENING class non-default-ids: the samples that have single-agent rows are NOT a sorted-name prefix of the samples with
+    combinations (combos for a,b,c; single agents only for a and c, or only for the last sample) -- the two sub-screens built
+    by `.to_screen()` number their samples independently, so comparing sample IDS across them assigns the wrong plates"""
+    a = 2
+    ctrl = rng.choice(["", "control", "dmso"])
+    treats = rng.sample([t for t in TREAT_POOL if t != ctrl], rng.randint(3, 5))
+    samples = sorted(_samples(rng, rng.randint(3, 5)))
+    mode = rng.choice(["last", "skip", "skip"])
+    with_single = [samples[-1]] if mode == "last" else [x for i, x in enumerate(samples) if i % 2 == 0 and i > 0] + ([samples[0]] if rng.random() < 0.5 else [])
+    if with_single == samples[:len(with_single)]:
+        with_single = [samples[-1]]
+    names = _plate_names(rng, 3, generated_ok=False)
+    rows, tn, td = [], [], []
+    for smp in samples:
+        for _ in range(rng.randint(2, 4)):
+            rows.append((smp, rng.choice(names[:2]), False))
+            tn.append(rng.sample(treats, a))
+            td.append([1.0] * a)
+        if smp in with_single:
+            for _ in range(rng.randint(1, 3)):
+                rows.append((smp, rng.choice(names[:2]), False))
+                r_n, r_d = [rng.choice(treats) for _ in range(a)], [1.0] * a
+                if rng.random() < 0.5:
+                    r_n[rng.randrange(a)] = ctrl
+                else:
+                    r_d[rng.randrange(a)] = 0.0
+                tn.append(r_n)
+                td.append(r_d)
+    order = list(range(len(rows)))
+    rng.shuffle(order)
+    raw = dict(ctrl=ctrl, arity=a, tnames=[tn[i] for i in order], tdoses=[td[i] for i in order],
+               snames=[rows[i][0] for i in order], pnames=[rows[i][1] for i in order], obs=obs_values(rng, len(rows)),
+               mask=[False] * len(rows), tmap=None, smap=None)
+    sub = rng.choice([1, 1, 2])
+    return {"op": "gen-pair", "params": {"subset": sub, "anchor": rng.choice([0, 0, sub])}, "raw": raw, "npseed": rng.randrange(2 ** 31)}
+
+
+def permute_maps(rng, raw):
+    """supplied mappings whose ROWS are shuffled and whose ids are a permutation of 0..n-1 (ids are not sort positions)"""
+    superset_maps(rng, raw)
+    if raw["tmap"] is None:
+        return raw
+    tn, tdz, ti = raw["tmap"]
+    nonc = sorted(set(i for i in ti if i >= 0))
+    perm = dict(zip(nonc, rng.sample(nonc, len(nonc))))
+    order = list(range(len(ti)))
+    rng.shuffle(order)
+    raw["tmap"] = ([tn[i] for i in order], [tdz[i] for i in order], [perm.get(ti[i], ti[i]) for i in order])
+    sn, si = raw["smap"]
+    sperm = dict(zip(si, rng.sample(si, len(si))))
+    order = list(range(len(si)))
+    rng.shuffle(order)
+    raw["smap"] = ([sn[i] for i in order], [sperm[si[i]] for i in order])
+    return raw
+
+
+def d_holdout_ids(rng, op):
+    """hold-out on a partially observed screen with observed rows first / in the middle, permuted supplied mappings"""
+    case = d_holdout_big(rng, op) if rng.random() < 0.4 else gen_case(rng, op)
+    case["raw"]["tmap"] = case["raw"]["smap"] = None
+    permute_maps(rng, case["raw"])
+    if not (0 < case["params"]["fraction"] <= 1):
+        case["params"]["fraction"] = rng.choice([0.3, 0.5, 1.0])
+    return case
+
+
+def no_control(raw):
+    """the same layout without any control: every control cell becomes a positive-dose cell of a real treatment"""
+    ctrl = raw["ctrl"]
+    others = [t for t in TREAT_POOL if t != ctrl]
+    for r_n, r_d in zip(raw["tnames"], raw["tdoses"]):
+        for k in range(len(r_n)):
+            if r_n[k] == ctrl:
+                r_n[k] = others[(k + len(r_d)) % len(others)]
+            if r_d[k] <= 0:
+                r_d[k] = 1.0
+    return raw
+
+
+def long_names(raw, n=27):
+    """every plate / sample / non-control treatment name gets >= 27 characters (longer than any buffer a refactor might allocate)"""
+    ext = lambda x: x + "_" + "L" * max(1, n - len(x) - 1)
+    raw["pnames"] = [ext(x) for x in raw["pnames"]]
+    raw["snames"] = [ext(x) for x in raw["snames"]]
+    raw["tnames"] = [[x if x == raw["ctrl"] else ext(x) for x in r] for r in raw["tnames"]]
+    if raw.get("tmap") is not None:
+        raw["tmap"] = ([x if x == raw["ctrl"] else ext(x) for x in raw["tmap"][0]], raw["tmap"][1], raw["tmap"][2])
+        raw["smap"] = ([ext(x) for x in raw["smap"][0]], raw["smap"][1])
+    return raw
+
+
+def d_seg101(rng):
+    """>= 101 generated plates (three-digit names)"""
+    samples = _samples(rng, rng.randint(2, 4))
+    rows = []
+    names = _plate_names(rng, 2, generated_ok=False)
+    for i in range(rng.randint(101, 112)):
+        rows.append((samples[i % len(samples)], names[0], False))
+    rows += [(samples[0], names[1], True)] * rng.randint(0, 2)
+    raw = raw_from_layout(rng, rows, arity=2)
+    return {"op": "gen-seg", "params": {"max": 1}, "raw": raw, "npseed": rng.randrange(2 ** 31)}
+
+
+def d_falsy(rng, op):
+    """seed 0, a one-row screen or a one-plate one-sample screen, size parameters 1"""
+    case = gen_case(rng, op)
+    case["npseed"] = 0
+    if rng.random() < 0.4:
+        raw = case["raw"]
+        for k in ("tnames", "tdoses", "snames", "pnames", "obs"):
+            raw[k] = raw[k][:1]
+        if raw["mask"] is not None:
+            raw["mask"] = raw["mask"][:1]
+        raw["tmap"] = raw["smap"] = None
+    for k in ("max", "k", "subset", "min_size", "n_iter", "min_n"):
+        if k in case["params"] and rng.random() < 0.6:
+            case["params"][k] = 1
+    return case
+
+
+def add_history(rng, case):
+    """give the case a `hist` screen for the call that precedes the judged one on the same object: either an unrelated
+    screen, or a relative of the input (a shuffled subset of its rows plus rows on a plate / sample the input does not have;
+    for the permutation generator that extra plate is also named in `force`, so only the earlier call has forced plates)"""
+    op, raw = case["op"], case["raw"]
+    if rng.random() < 0.4 or not raw["snames"]:
+        case["hist"] = gen_case(rng, op)["raw"]
+        return case
+    n = len(raw["snames"])
+    keep = sorted(rng.sample(range(n), rng.randint(1, n)))
+    rng.shuffle(keep)
+    mask = raw["mask"] if raw["mask"] is not None else [True] * n
+    h = dict(ctrl=raw["ctrl"], arity=raw["arity"], tnames=[list(raw["tnames"][i]) for i in keep], tdoses=[list(raw["tdoses"][i]) for i in keep],
+             snames=[raw["snames"][i] for i in keep], pnames=[raw["pnames"][i] for i in keep], obs=[raw["obs"][i] for i in keep],
+             mask=[mask[i] for i in keep], tmap=None, smap=None)
+    extra_obs = op == "cover" or rng.random() < 0.3
+    for _ in range(rng.randint(1, 4)):
+        i = rng.randrange(n)
+        h["tnames"].append(list(raw["tnames"][i]))
+        h["tdoses"].append(list(raw["tdoses"][i]))
+        h["snames"].append(rng.choice([raw["snames"][i], "warm sample"]))
+        h["pnames"].append("warm_only_plate")
+        h["obs"].append(0.123)
+        h["mask"].append(extra_obs)
+    if op == "gen-perm" and rng.random() < 0.7:
+        case["params"]["force"] = (case["params"]["force"] or []) + ["warm_only_plate"]
+    case["hist"] = h
+    return case
+
+
 def directed_cases(rng, mult):
     """[(family, case)]"""
     out = []
@@ -649,72 +800,202 @@ def directed_cases(rng, mult):
     for op in OPS:
         for _ in range((2 if op == "gen-pair" else 1) * mult):
             out.append(("vehicle", d_vehicle(rng, op)))
+    for _ in range(3 * mult):
+        out.append(("pair-single-nonprefix", d_pair_nonprefix(rng)))
+    for _ in range(3 * mult):
+        out.append(("ho-permuted-maps", d_holdout_ids(rng, "ho-bal")))
+    for _ in range(1 * mult):
+        out.append(("ho-permuted-maps", d_holdout_ids(rng, "ho-rand")))
+    out.append(("seg-101", d_seg101(rng)))
+    for i, op in enumerate(OPS):
+        out.append(("falsy", d_falsy(rng, op)))
+        c = gen_case(rng, op)
+        c["raw"]["tmap"] = c["raw"]["smap"] = None
+        no_control(c["raw"])
+        if op == "gen-pair":
+            c["raw"] = ensure_combo_rows(rng, c["raw"], p=1.0)
+        out.append(("no-control", c))
     return out
 
 
 # ------------------------------------------------------------------ running the real code
 
+LAYOUTS = ("fortran", "strided", "negstride", "readonly", "wideU")
+
+
+def build_work(raw, layout=None):
+    """the real input Screen; `layout` (HARDENING class memory-layout/dtype) hands the constructor the same values as
+    Fortran-ordered / strided / negative-stride / read-only / wider fixed-width arrays"""
+    if not layout:
+        return S.build(raw)
+    from batchie.data import Screen
+    n, a = len(raw["snames"]), raw["arity"]
+
+    def lay(x):
+        if layout == "fortran":
+            x = np.asfortranarray(x)
+        elif layout == "strided":
+            big = np.repeat(x, 2, axis=0)
+            x = big[::2]
+        elif layout == "negstride":
+            x = np.array(x[::-1])[::-1]
+        elif layout == "wideU" and x.dtype.kind == "U":
+            x = x.astype("<U48")
+        if layout == "readonly":
+            x = x.copy()
+            x.setflags(write=False)
+        return x
+
+    kw = dict(treatment_names=lay(np.array(raw["tnames"], dtype=str).reshape(n, a)),
+              treatment_doses=lay(np.array(raw["tdoses"], dtype=float).reshape(n, a)),
+              sample_names=lay(np.array(raw["snames"], dtype=str)), plate_names=lay(np.array(raw["pnames"], dtype=str)),
+              control_treatment_name=raw["ctrl"])
+    if raw["obs"] is not None:
+        kw["observations"] = lay(np.array(raw["obs"], dtype=float))
+    if raw["mask"] is not None:
+        kw["observation_mask"] = lay(np.array(raw["mask"], dtype=bool))
+    if raw.get("tmap") is not None:
+        kw["treatment_mapping"] = (np.array(raw["tmap"][0], dtype=str), np.array(raw["tmap"][1], dtype=float), np.array(raw["tmap"][2], dtype=int))
+    if raw.get("smap") is not None:
+        kw["sample_mapping"] = (np.array(raw["smap"][0], dtype=str), np.array(raw["smap"][1], dtype=int))
+    return Screen(**kw)
+
+
+def make_call(case):
+    """callable (screen, rng) -> result; generators / smoothers / the initial-plate generator are ONE object held by the
+    closure (so that calling it repeatedly reuses the object)"""
+    import batchie.retrospective as R
+    from batchie.data import filter_dataset_to_treatments_that_appear_in_at_least_one_combo
+    op, p = case["op"], case["params"]
+    if op == "gen-perm":
+        return R.PlatePermutationPlateGenerator(force_include_plate_names=p["force"]).generate_plates
+    if op == "gen-seg":
+        return R.SampleSegregatingPermutationPlateGenerator(max_plate_size=p["max"]).generate_plates
+    if op == "gen-pair":
+        return R.PairwisePlateGenerator(subset_size=p["subset"], anchor_size=p["anchor"]).generate_plates
+    if op == "sm-fixed":
+        return R.FixedSizeSmoother(plate_size=p["k"]).smooth_plates
+    if op == "sm-opt":
+        return R.OptimalSizeSmoother().smooth_plates
+    if op == "sm-nplate":
+        return R.NPlatePerCellLineSmoother(min_n_cell_line_plates=p["k"]).smooth_plates
+    if op == "sm-mergemin":
+        return R.MergeMinPlateSmoother(min_size=p["k"]).smooth_plates
+    if op == "sm-topbottom":
+        return R.MergeTopBottomPlateSmoother(n_iterations=p["k"]).smooth_plates
+    if op == "sm-ensemble":
+        return R.BatchieEnsemblePlateSmoother(min_size=p["min_size"], n_iterations=p["n_iter"],
+                                              min_n_cell_line_plates=p["min_n"]).smooth_plates
+    if op == "cover":
+        return R.SparseCoverPlateGenerator(reveal_single_treatment_experiments=p["reveal"]).generate_and_unmask_initial_plate
+    if op == "combofilter":
+        return lambda scr, rng: filter_dataset_to_treatments_that_appear_in_at_least_one_combo(scr)
+    if op == "ho-bal":
+        return lambda scr, rng: R.create_plate_balanced_holdout_set_among_masked_plates(scr, p["fraction"], rng)
+    if op == "ho-rand":
+        return lambda scr, rng: R.create_random_holdout(scr, p["fraction"], rng)
+    raise ValueError(op)
+
+
+PER_ROW = ("_treatment_ids", "_sample_ids", "_plate_ids", "_observations", "_observation_mask", "_sample_names", "plate_names",
+           "_treatment_names", "_treatment_doses")
+
+
+def snapshot(x):
+    """bytes of every array reachable from a Screen / tuple of Screens (attributes enumerated by introspection)"""
+    if isinstance(x, tuple):
+        return tuple(snapshot(y) for y in x)
+    if x is None:
+        return None
+    out = {}
+    for k, v in sorted(vars(x).items()):
+        if isinstance(v, np.ndarray):
+            out[k] = (str(v.dtype), v.shape, np.ascontiguousarray(v).tobytes())
+        elif isinstance(v, tuple):
+            out[k] = tuple((str(np.asarray(w).dtype), np.asarray(w).shape, np.ascontiguousarray(np.asarray(w)).tobytes()) for w in v)
+        else:
+            out[k] = repr(v)
+    return out
+
+
+def snap_diff(a, b):
+    if isinstance(a, tuple) and isinstance(b, tuple) and len(a) == len(b):
+        return sorted(set(sum((snap_diff(x, y) for x, y in zip(a, b)), [])))
+    if a is None or b is None or isinstance(a, tuple) or isinstance(b, tuple):
+        return [] if a == b else ["<shape>"]
+    return sorted(k for k in set(a) | set(b) if a.get(k) != b.get(k))
+
+
 class Outcome:
     def __init__(self):
-        self.inp = None      # the input Screen (fresh)
+        self.inp = None      # RawView of the input
         self.out = None      # Screen or (Screen, Screen)
         self.err = None
         self.rng = None
         self.pops = []
         self.parent_err = None
+        self.history = []    # findings of the history run (object reuse / input mutation / result aliasing): (what, detail)
 
 
-def execute(case):
+def _guarded(fn, screen, rng):
+    """one call under the recording heap proxy -> (result, error, pops)"""
     import batchie.retrospective as R
-    from batchie.data import filter_dataset_to_treatments_that_appear_in_at_least_one_combo
-    o = Outcome()
-    try:
-        work = S.build(case["raw"])
-        o.inp = RawView(case["raw"])
-    except Exception as e:
-        o.parent_err = e
-        return o
-    op, p = case["op"], case["params"]
-    rng = RecRng(case["npseed"])
-    o.rng = rng
     proxy = HeapProxy()
     saved = R.heapq
     R.heapq = proxy
     try:
-        if op == "gen-perm":
-            o.out = R.PlatePermutationPlateGenerator(force_include_plate_names=p["force"]).generate_plates(work, rng)
-        elif op == "gen-seg":
-            o.out = R.SampleSegregatingPermutationPlateGenerator(max_plate_size=p["max"]).generate_plates(work, rng)
-        elif op == "gen-pair":
-            o.out = R.PairwisePlateGenerator(subset_size=p["subset"], anchor_size=p["anchor"]).generate_plates(work, rng)
-        elif op == "sm-fixed":
-            o.out = R.FixedSizeSmoother(plate_size=p["k"]).smooth_plates(work, rng)
-        elif op == "sm-opt":
-            o.out = R.OptimalSizeSmoother().smooth_plates(work, rng)
-        elif op == "sm-nplate":
-            o.out = R.NPlatePerCellLineSmoother(min_n_cell_line_plates=p["k"]).smooth_plates(work, rng)
-        elif op == "sm-mergemin":
-            o.out = R.MergeMinPlateSmoother(min_size=p["k"]).smooth_plates(work, rng)
-        elif op == "sm-topbottom":
-            o.out = R.MergeTopBottomPlateSmoother(n_iterations=p["k"]).smooth_plates(work, rng)
-        elif op == "sm-ensemble":
-            o.out = R.BatchieEnsemblePlateSmoother(min_size=p["min_size"], n_iterations=p["n_iter"],
-                                                   min_n_cell_line_plates=p["min_n"]).smooth_plates(work, rng)
-        elif op == "cover":
-            o.out = R.SparseCoverPlateGenerator(reveal_single_treatment_experiments=p["reveal"]).generate_and_unmask_initial_plate(work, rng)
-        elif op == "combofilter":
-            o.out = filter_dataset_to_treatments_that_appear_in_at_least_one_combo(work)
-        elif op == "ho-bal":
-            o.out = R.create_plate_balanced_holdout_set_among_masked_plates(work, p["fraction"], rng)
-        elif op == "ho-rand":
-            o.out = R.create_random_holdout(work, p["fraction"], rng)
-        else:
-            raise ValueError(op)
-    except Exception as e:  # part of the behaviour: class only
-        o.err = e
+        return fn(screen, rng), None, proxy.pops
+    except Exception as e:   # part of the behaviour: class only
+        return None, e, proxy.pops
     finally:
         R.heapq = saved
-    o.pops = proxy.pops
+
+
+def execute(case):
+    """run the case on the real code.  With `case["hist"]` (a second raw screen) the call is embedded in a history on ONE
+    operation object:  op(warm) ; op(input) [= the result that is judged and compared with the model] ; op(input) again
+    -- the input must be bit-identical afterwards, the judged result must not change when later calls run,
+    and it must equal the result of a fresh object on a fresh copy of the input with the same generator seed."""
+    o = Outcome()
+    try:
+        work = build_work(case["raw"], case.get("layout"))
+        o.inp = RawView(case["raw"])
+    except Exception as e:
+        o.parent_err = e
+        return o
+    call = make_call(case)
+    hist = case.get("hist")
+    if hist is not None:
+        try:
+            warm = S.build(hist)
+        except Exception:
+            warm = None
+        if warm is not None:
+            _guarded(call, warm, RecRng(case["npseed"] + 1))
+    before = snapshot(work)
+    rng = RecRng(case["npseed"])
+    o.rng = rng
+    o.out, o.err, o.pops = _guarded(call, work, rng)
+    d = snap_diff(before, snapshot(work))      # every case: the input must be bit-identical after the call
+    if d:
+        o.history.append(("the operation modified its input screen in place", d))
+    if hist is not None:
+        out_snap = snapshot(o.out)
+        canon = impl_canon(case, o)
+        _guarded(call, work, RecRng(case["npseed"] + 2))
+        if o.out is not work:
+            d = snap_diff(out_snap, snapshot(o.out))
+            if d:
+                o.history.append(("an earlier result changed when the operation was called again", d))
+        d = snap_diff(before, snapshot(work))
+        if d and not o.history:
+            o.history.append(("the operation modified its input screen in place", d))
+        fresh = Outcome()
+        fresh.rng = RecRng(case["npseed"])
+        fresh.out, fresh.err, fresh.pops = _guarded(make_call(case), build_work(case["raw"], case.get("layout")), fresh.rng)
+        fc = impl_canon(case, fresh)
+        if fc != canon:
+            o.history.append(("a reused operation object answers differently from a fresh one", {"reused": canon[:300], "fresh": fc[:300]}))
     return o
 
 
@@ -838,6 +1119,50 @@ def nontrivial(case, o):
         return False
     s = o.inp
     return s.size >= 4 and len(unobs_plates(s)) + (0 if case["op"] != "cover" else 2) >= 2 and len(set(s.sample_names.tolist())) >= 1
+
+
+# ------------------------------------------------------------------ oracles shared by C11 and C13 (HARDENING classes 1, 2, 5)
+
+def is_control(raw, nm, d):
+    return nm == raw["ctrl"] or d <= 0
+
+
+def oracle_common(res, case, o, prop):
+    op = case["op"]
+    fail = lambda what, obs, req: res.fail(what, case, obs, req, signature="%s:%s:%s" % (prop, op, what))
+    for what, detail in o.history:
+        fail(what, detail, "input untouched; results independent of later calls; reused object == fresh object")
+    if o.err is not None or o.out is None:
+        return
+    outs = o.out if isinstance(o.out, tuple) else (o.out,)
+    raw = case["raw"]
+    for t in outs:
+        n = int(t.size)
+        # attribute completeness: the per-row arrays are found by introspection, every one of them is judged
+        for k, v in vars(t).items():
+            if isinstance(v, np.ndarray) and v.ndim >= 1 and k not in PER_ROW:
+                fail("result screen carries an array attribute no oracle looks at", k, list(PER_ROW))
+        for k in PER_ROW:
+            v = getattr(t, k, None)
+            if not isinstance(v, np.ndarray) or v.shape[0] != n:
+                fail("per-row attribute missing or of the wrong length", {k: None if v is None else list(np.shape(v))}, n)
+                return
+        # ids are consistent with the names they stand for (plate ids are re-encoded by Plate.merge)
+        for ids, names, lab in ((t._plate_ids, t.plate_names, "plate"), (t._sample_ids, t._sample_names, "sample")):
+            pairs = set((int(i), str(x)) for i, x in zip(ids, names))
+            if not (len(pairs) == len(set(i for i, _ in pairs)) == len(set(x for _, x in pairs))):
+                fail("%s ids of the result do not correspond one-to-one to %s names" % (lab, lab), sorted(pairs)[:6], "bijection")
+        tp = set()
+        for i in range(n):
+            for k in range(t._treatment_ids.shape[1]):
+                tid, nm, d = int(t._treatment_ids[i][k]), str(t._treatment_names[i][k]), float(t._treatment_doses[i][k])
+                if (tid == -1) != is_control(raw, nm, d):
+                    fail("control sentinel of the result does not match (name, dose)", {"id": tid, "name": nm, "dose": d}, "-1 iff control")
+                    return
+                if tid != -1:
+                    tp.add((tid, nm, d))
+        if not (len(tp) == len(set(x[0] for x in tp)) == len(set(x[1:] for x in tp))):
+            fail("treatment ids of the result do not correspond one-to-one to (name, dose)", sorted(tp)[:6], "bijection")
 
 
 # ------------------------------------------------------------------ C11 oracles
@@ -1094,17 +1419,143 @@ def clause_counters(res, case, o):
             res.count("clause.sm-nplate: >= 2 samples dropped, some kept")
 
 
+def digest(case, o):
+    if o.parent_err is not None:
+        return "parent"
+    return common.short_hash([driver_line(case, o), impl_canon(case, o)])
+
+
+def xproc_digests(cases, hashseed):
+    """digests of the cases re-executed in ANOTHER interpreter with another PYTHONHASHSEED (HARDENING class 6)"""
+    import json, os, subprocess, sys, tempfile
+    d = tempfile.mkdtemp()
+    try:
+        fn = os.path.join(d, "cases.json")
+        with open(fn, "w") as f:
+            json.dump(cases, f)
+        env = dict(os.environ, PYTHONHASHSEED=str(hashseed))
+        p = subprocess.run([sys.executable, "-m", "harness.prep_common", fn], cwd=common.VERIF, env=env, stdout=subprocess.PIPE,
+                           stderr=subprocess.PIPE, text=True, timeout=600)
+        if p.returncode != 0:
+            return None
+        return json.loads(p.stdout.strip().split("\n")[-1])
+    finally:
+        import shutil
+        shutil.rmtree(d, ignore_errors=True)
+
+
+def class_counters(res, case, o, fam):
+    """HARDENING_CHECKLIST classes: how many cases of this run fall into each (evidence `distribution`, keys `class.*`)"""
+    op, p, raw = case["op"], case["params"], case["raw"]
+    if o.parent_err is not None:
+        return
+    ret = o.err is None and o.out is not None
+    if ret:
+        res.count("class.input-mutation: input screen (all arrays, by bytes) identical after the call")
+    if case.get("hist") is not None and ret:
+        res.count("class.object-reuse: op(other screen); op(input); op(input) on ONE object == fresh object")
+        res.count("class.aliasing: judged result bit-identical after later calls")
+    if case.get("layout") and ret:
+        res.count("class.memory-layout: " + case["layout"])
+    if ret and any(len(x) >= 25 for x in raw["pnames"]):
+        res.count("class.memory-layout: plate / sample / treatment names >= 25 characters")
+    if ret and raw.get("tmap") is not None:
+        res.count("class.non-default-ids: supplied mappings (superset => id gaps)")
+        if list(raw["smap"][1]) != sorted(raw["smap"][1]) or [x for x in raw["tmap"][2] if x >= 0] != sorted(x for x in raw["tmap"][2] if x >= 0):
+            res.count("class.non-default-ids: supplied mappings with shuffled rows and permuted ids")
+    if ret:
+        cells = [(nm, d) for rn, rd in zip(raw["tnames"], raw["tdoses"]) for nm, d in zip(rn, rd)]
+        if cells and not any(is_control(raw, nm, d) for nm, d in cells):
+            res.count("class.non-default-ids: screen without any control")
+        if any(nm == raw["ctrl"] and d > 0 for nm, d in cells):
+            res.count("class.non-default-ids: named control with a positive dose")
+        res.count("class.attribute-completeness: result screens whose array attributes were enumerated by introspection",
+                  2 if isinstance(o.out, tuple) else 1)
+    s = o.inp
+    m = np.asarray(s.observation_mask, dtype=bool)
+    if ret and m.any() and (~m).any():
+        first_un, last_un = int(np.argmax(~m)), int(len(m) - 1 - np.argmax(~m[::-1]))
+        if m[:first_un].any() or m[first_un:last_un].any():
+            res.count("class.row-order: observed rows before / between unobserved rows (%s)" % ("hold-out" if isinstance(o.out, tuple) else "other"))
+        else:
+            res.count("class.row-order: every unobserved row precedes every observed row")
+    if ret and s.size >= 3:
+        def scattered(col):
+            seen, last = set(), None
+            for x in col:
+                if x != last and x in seen:
+                    return True
+                seen.add(x)
+                last = x
+            return False
+        if scattered([str(x) for x in s.plate_names]):
+            res.count("class.row-order: rows of a plate not contiguous")
+        if scattered([str(x) for x in s.sample_names]):
+            res.count("class.row-order: rows of a sample not contiguous (A,B,A)")
+    if ret:
+        if case["npseed"] == 0:
+            res.count("class.falsy: generator seed 0")
+        if s.size == 1:
+            res.count("class.falsy: one-row screen")
+        if any(p.get(k) == 1 for k in ("max", "k", "subset", "min_size", "n_iter", "min_n")):
+            res.count("class.falsy: size parameter 1")
+        if any(p.get(k) == 0 for k in ("max", "k", "subset", "min_size", "n_iter", "min_n", "anchor")) or p.get("fraction") == 0.0 or p.get("force") == []:
+            res.count("class.falsy: parameter 0 / fraction 0 / empty force list")
+        if op == "sm-nplate" and single_sample_design(s) and (~m).any():
+            pin = plates_by_sample(s)
+            un_samples = sorted(set(str(s.sample_names[i]) for i in range(s.size) if not m[i]))
+            if un_samples and len(pin.get(un_samples[0], [])) < p["k"] and len(pin) > 1:
+                res.count("class.falsy: the sample with id 0 is the one to drop")
+        if isinstance(o.out, tuple) and o.rng is not None and any(e[0] == "choice" and 0 in e[2] for e in o.rng.log):
+            res.count("class.falsy: row 0 drawn into the hold-out")
+    if ret and op in GENERATORS and (~m).any():
+        k = len(unobs_plates(o.out))
+        if k >= 11:
+            res.count("class.size-boundary: >= 11 generated plates (two-digit names)")
+        if k >= 101:
+            res.count("class.size-boundary: >= 101 generated plates (three-digit names)")
+    if ret and op == "gen-pair" and (~m).any():
+        a = raw["arity"]
+        combo, single = set(), set()
+        for i in range(s.size):
+            if not m[i]:
+                ctl = [is_control(raw, raw["tnames"][i][k], raw["tdoses"][i][k]) for k in range(a)]
+                (single if any(ctl) else combo).add(str(s.sample_names[i]))
+        cs, ss = sorted(combo), sorted(single)
+        if ss and ss != cs[:len(ss)]:
+            res.count("class.non-default-ids: samples with single-agent rows are not a sorted prefix of the samples with combinations")
+    if fam == "xproc":
+        res.count("class.cross-process: cases repeated in another interpreter with another PYTHONHASHSEED")
+
+
 def run_property(ctx, res, prop, oracle, rule):
     res.rule = rule
     rng = ctx.subrng(prop, "prep")
-    per_op = ctx.scale(60, 600, 220)
+    frng = ctx.subrng(prop, "flags")
+    per_op = ctx.scale(46, 560, 200)
     todo = []
     for op in OPS:
-        for _ in range(per_op):
-            todo.append(("random", gen_case(rng, op)))
-    todo += directed_cases(ctx.subrng(prop, "directed"), ctx.scale(2, 8, 4))
+        for j in range(per_op):
+            case = gen_case(rng, op)
+            if j < ctx.scale(3, 8, 4):          # history on one object: reuse / aliasing of results
+                add_history(frng, case)
+            elif j % 5 == 0:                    # memory layouts of the input arrays
+                case["layout"] = LAYOUTS[(j // 5) % len(LAYOUTS)]
+            elif j % 11 == 3:
+                long_names(case["raw"])
+            todo.append(("random", case))
+    for fam, case in directed_cases(ctx.subrng(prop, "directed"), ctx.scale(2, 8, 4)):
+        u = frng.random()
+        if u < 0.12:
+            case["layout"] = frng.choice(LAYOUTS)
+        elif u < 0.2:
+            long_names(case["raw"])
+        elif u < 0.26 and len(case["raw"]["snames"]) <= 40:
+            add_history(frng, case)
+        todo.append((fam, case))
     lines, expect, cases = [], [], []
-    for fam, case in todo:
+    xp = []
+    for idx, (fam, case) in enumerate(todo):
         op = case["op"]
         o = execute(case)
         res.evaluations += 1
@@ -1121,7 +1572,9 @@ def run_property(ctx, res, prop, oracle, rule):
         if o.rng is not None and any(e[0].startswith("other:") for e in o.rng.log):
             res.notes.append("unrecorded generator method used by %s: %s" % (op, [e[0] for e in o.rng.log if e[0].startswith("other:")][:3]))
         oracle(res, case, o)
+        oracle_common(res, case, o, prop)
         clause_counters(res, case, o)
+        class_counters(res, case, o, fam)
         if nontrivial(case, o):
             res.nontrivial.add((op, common.short_hash(case)))
         line = driver_line(case, o)
@@ -1131,6 +1584,30 @@ def run_property(ctx, res, prop, oracle, rule):
         lines.append(line)
         expect.append(out)
         cases.append(case)
+        if case.get("hist") is None and o.err is None and o.inp.size <= 60:
+            xp.append((case, digest(case, o)))
+    # ---- cross-process repetition with another hash seed: per operation the cases with the most distinct names
+    # (set / dict-of-str iteration order can only matter when there are several names)
+    want = ctx.scale(5, 20, 10)
+    by_op = {}
+    for c, d in xp:
+        by_op.setdefault(c["op"], []).append((len(set(c["raw"]["snames"])) * 3 + len(set(c["raw"]["pnames"])), len(by_op.get(c["op"], [])), c, d))
+    xp = []
+    for op_ in OPS:
+        for _, _, c, d in sorted(by_op.get(op_, []), key=lambda t: (-t[0], t[1]))[:want]:
+            xp.append((c, d))
+    if xp:
+        hs = 1 + (ctx.seed * 7919 + 12345) % 4000000
+        got = xproc_digests([c for c, _ in xp], hs)
+        if got is None:
+            res.notes.append("cross-process repetition could not be run")
+        else:
+            for (c, d), g in zip(xp, got):
+                res.count("class.cross-process: cases repeated in another interpreter with another PYTHONHASHSEED")
+                if g != d:
+                    c2 = dict(c, xproc=hs)
+                    res.fail("the result depends on PYTHONHASHSEED (same screen, parameters and generator seed in another interpreter)", c2,
+                             g, d, signature="%s:%s:hashseed" % (prop, c["op"]))
     if ctx.driver is not None:
         got = ctx.driver.ask(lines)
         for l, e, g, c in zip(lines, expect, got, cases):
@@ -1139,6 +1616,22 @@ def run_property(ctx, res, prop, oracle, rule):
         res.traces_validated += len(lines)
 
 
-def replay_property(ctx, case, res, oracle):
+def replay_property(ctx, case, res, oracle, prop=None):
     o = execute(case)
     oracle(res, case, o)
+    oracle_common(res, case, o, prop or ctx.prop)
+    if case.get("xproc") is not None:
+        got = xproc_digests([case], case["xproc"])
+        if got is not None and got[0] != digest(case, o):
+            res.fail("the result depends on PYTHONHASHSEED (same screen, parameters and generator seed in another interpreter)", case,
+                     got[0], digest(case, o), signature="%s:%s:hashseed" % (prop or ctx.prop, case["op"]))
+
+
+if __name__ == "__main__":
+    # child of `xproc_digests`: re-execute the cases of a JSON file, print their digests
+    import json as _json
+    import sys as _sys
+    logging.disable(logging.CRITICAL)
+    with open(_sys.argv[1]) as _f:
+        _cases = _json.load(_f)
+    print(_json.dumps([digest(c, execute(c)) for c in _cases]))
